@@ -463,6 +463,8 @@ class SInt:
     def __eq__(self, o):
         if o is None:
             return False
+        if isinstance(o, SInt) and self.t.eq(o.t):
+            return True  # the very same term (hash-consed): no query, no simplification
         r = self._cmp(o, lambda a, b: a == b,
                       lambda al, ah, bl, bh: False if (ah < bl or bh < al) else (
                           True if al == ah == bl == bh else None))
